@@ -15,7 +15,7 @@ g++ $CXXF seeded/demo$N.cpp -o $OUT/demo_mut > $OUT/demo_mut.build.log 2>&1 || {
 $OUT/demo_mut > $OUT/demo_mut.log 2>&1; res "demo_mut_exit=$?"
 # full suite with the patch
 mkdir -p $OUT/obj
-ls test/src/run_tests.cpp test/integration/*.cpp test/unit/*.cpp | xargs -P 14 -I{} sh -c 'o=$1/obj/$(echo {} | tr / _).o; g++ -std=c++17 -O1 -DBOOST_TEST_NO_MAIN=1 -I$2/include -I$2/test/include -w -c {} -o $o > $o.log 2>&1 || echo "COMPILE FAIL {}"' _ $OUT $WT > $OUT/suite.build.log 2>&1
+ls test/src/run_tests.cpp test/integration/*.cpp test/unit/*.cpp | xargs -P ${JOBS:-14} -I{} sh -c 'o=$1/obj/$(echo {} | tr / _).o; g++ -std=c++17 -O1 -DBOOST_TEST_NO_MAIN=1 -I$2/include -I$2/test/include -w -c {} -o $o > $o.log 2>&1 || echo "COMPILE FAIL {}"' _ $OUT $WT > $OUT/suite.build.log 2>&1
 if grep -q "COMPILE FAIL" $OUT/suite.build.log; then res "suite_build=FAIL"; git checkout -q -- include; exit 1; fi
 g++ $OUT/obj/*.o -o $OUT/suite -pthread > $OUT/suite.link.log 2>&1 || { res "suite_link=FAIL"; git checkout -q -- include; exit 1; }
 $OUT/suite --report_level=short > $OUT/suite.log 2>&1; rc=$?
